@@ -9,7 +9,7 @@ EXPLANATION = ('Static rules on the five subject types (instances of the same ma
                'one live range of the `observers` guard; J2 every notification first moves the waiting subscribers from the side list into '
                'the live list (load) and subscribe only ever pushes into the side list; J3 terminals take() the live list, unsubscribe takes '
                'both lists, is_finished/is_closed answer "live list is None", subscribing to an unsubscribed subject yields an empty '
-               'subscriber; J4 the terminal broadcast skips closed subscribers; J9 is_empty()/len() are pure reads; J8 is_empty()/len() count the waiting chamber only while the live list is open (a finished subject is empty); J7 unsubscribe() closes the live list before the waiting chamber, the order load()/len()/is_empty() rely on (same rule as C10.L6); J6 the live list is not edited during a broadcast (every present subscriber is visited once); J5 the stored subscriber handle delivers under its slot guard and never re-fills its slot (unsubscribe-one is effective and final). Decides the mechanism behind "a subscriber added during an '
+               'subscriber; J4 the terminal broadcast skips closed subscribers; J10 the two subscriber lists are locked in one order everywhere (same rule as C10.L3a); J9 is_empty()/len() are pure reads; J8 is_empty()/len() count the waiting chamber only while the live list is open (a finished subject is empty); J7 unsubscribe() closes the live list before the waiting chamber, the order load()/len()/is_empty() rely on (same rule as C10.L6); J6 the live list is not edited during a broadcast (every present subscriber is visited once); J5 the stored subscriber handle delivers under its slot guard and never re-fills its slot (unsubscribe-one is effective and final). Decides the mechanism behind "a subscriber added during an '
                'emission does not see the in-flight item"; does not decide exactly-once delivery over join/leave histories.')
 ASSUMPTIONS = ['SmallVec keeps insertion order; RefCell/Mutex guards give exclusive access']
 
@@ -70,7 +70,20 @@ def _lists(cx, adt_path):
 
 
 def check(cx):
-    return _check(cx) + j7(cx) + j8(cx) + j9(cx)
+    return _check(cx) + j7(cx) + j8(cx) + j9(cx) + j10(cx)
+
+
+def j10(cx):
+    """the two subscriber lists are always locked in the same order (live list, then chamber): same analysis as C10.L3a, restricted to
+    the subject cells — an inverted order dead-locks a thread-safe subject between e.g. retain() and an emission"""
+    if cx.control:
+        return []
+    from . import c10
+    out = []
+    for f in c10.l3a(cx):
+        if f.rule == 'L3a' and ('#observers' in f.key or '#chamber' in f.key):
+            out.append(Finding(ID, 'J10', f.key, f.ok, f.msg, f.loc, f.witness))
+    return out
 
 
 def j9(cx):
